@@ -574,7 +574,7 @@ func init() {
 		ID:    "C14",
 		Level: "exploration",
 		Rule: "cases are biased to everything that iterates a map: data objects with 2..12 keys (incl. keys that differ only in case, nested objects) printed, dumped, nested, iterated; object literals with many keys; object literals, array literals and component argument lists with 2..4 failing entries; pages with 2..4 undefined/duplicate inserts; components with 2..3 slots passed twice or undeclared; trees with 2..4 faulty files at once (syntax and link faults); plus the generic program generator (shuffle()/rand() excluded). " +
-			"Every case is executed R1 times in one process (trees are reloaded from disk after a state reset each time) and as R2 copies that the supervisor's striding places in different worker processes; all observations (output, or error message+line+path) of a case must be byte-identical, within a process and across processes (copies exchange digests through a shared scratch directory). also case-family key sets, empty insert names, failing entries wrapped in literals; order-independent shuffle programs, reconfigured templates; round 8: template names differing in case; nine operations in fresh child processes alone and after each other one; round 9: operations on a kept Template in fresh processes; rounds 10-11: rewritten files, look-alike values and requests in fresh processes; rounds 12-13: dumps of failing literals, several unusable components, several insert names passed twice, careless error page paths; round 14: several components with a slot fault each, alias and plain string in one process, several unbindable data entries; distinct_nontrivial = distinct cases whose observation involved an object with >= 2 keys or >= 2 simultaneous faults",
+			"Every case is executed R1 times in one process (trees are reloaded from disk after a state reset each time) and as R2 copies that the supervisor's striding places in different worker processes; all observations (output, or error message+line+path) of a case must be byte-identical, within a process and across processes (copies exchange digests through a shared scratch directory). also case-family key sets, empty insert names, failing entries wrapped in literals; order-independent shuffle programs, reconfigured templates; round 8: template names differing in case; nine operations in fresh child processes alone and after each other one; round 9: operations on a kept Template in fresh processes; rounds 10-11: rewritten files, look-alike values and requests in fresh processes; rounds 12-13: dumps of failing literals, several unusable components, several insert names passed twice, careless error page paths; round 14: several components with a slot fault each, alias and plain string in one process, several unbindable data entries; round 15: unbindable entries under the empty key; distinct_nontrivial = distinct cases whose observation involved an object with >= 2 keys or >= 2 simultaneous faults",
 		Assumptions: []string{
 			"quick: R1=12 in-process repetitions x 3 copies; thorough: R1=40 x 8 copies; with k >= 2 candidates for 'first' a map-ordered choice survives all repetitions with probability <= 2^-35",
 			"cross-process comparisons only count when the copies ran in different processes (reported as cross_process_comparisons)",
